@@ -58,6 +58,12 @@ func (r *Registry) getByID(id string) Processer {
 }
 
 func (r *Registry) add(proc Processer) {
+	r.addThen(proc, nil)
+}
+
+// addThen is add with a hook that runs, still under the lock, once the id turned
+// out to be free and before the process is started.
+func (r *Registry) addThen(proc Processer, accepted func()) {
 	r.mu.Lock()
 	id := proc.PID().ID
 	if _, ok := r.lookup[id]; ok {
@@ -66,6 +72,9 @@ func (r *Registry) add(proc Processer) {
 		return
 	}
 	r.lookup[id] = proc
+	if accepted != nil {
+		accepted()
+	}
 	r.mu.Unlock()
 	proc.Start()
 }
